@@ -81,8 +81,20 @@ func main() {
 		}
 		rep := engine.NewReport(p, id, *tier)
 		rep.Extra["inlined_unknown_helpers"] = dedup(inlined)
-		ctx := rules.NewCtx(p, rep, *tier)
-		f(ctx)
+		func() {
+			defer func() {
+				if r := recover(); r != nil {
+					ae, ok := r.(engine.AnchorError)
+					if !ok {
+						panic(r)
+					}
+					fmt.Printf("UNDECIDED: %s\n", ae.Msg)
+					rep.Unknown(id+".anchor", "-", ae.Msg, "-", "a construct the rules of this property are anchored in is missing from this tree; the remaining obligations were not evaluated and the property cannot be shown to hold")
+				}
+			}()
+			ctx := rules.NewCtx(p, rep, *tier)
+			f(ctx)
+		}()
 		if *verbose {
 			rep.Verbose()
 		}
